@@ -171,7 +171,7 @@ func init() {
 		}},
 		opGen{"add-abs", always, func(g *G) Step {
 			// spellings of '.' and of .goit paths that do not start at the repository root
-			w := g.E.Box.Work
+			w := "{{work}}"
 			return goit("add", g.Pick([]string{w, "../w", w + "/.goit/config", "../w/.goit/HEAD", w + "/.goit", "../w/.", w + "/."}, "absForm"))
 		}},
 		opGen{"write-ext-dir", always, func(g *G) Step {
